@@ -5,8 +5,10 @@
 // eager/late completions (a slice of the cases).  Integer values => oracle is ==.
 #include "C11_body.hpp"
 
-struct Env { int policy, send_mode, recv_mode; bool reverse; const char *name; };
-static const Env ENVS[] = {{0,0,0,false,"fifo/eager"}, {1,0,0,true,"reverse/eager"}, {0,1,1,false,"fifo/late"}, {2,1,0,true,"preempt-always/late-send"}};
+struct Env { int policy, send_mode, recv_mode; bool reverse; const char *name; int threads = 1; };
+// the last schedule gives every rank an OpenMP team of 3 (fibers inside the rank fiber) under the reverse policy, so that the chunk
+// of the highest thread runs first: state that a parallel loop shares between its iterations by mistake is met in the "wrong" order
+static const Env ENVS[] = {{0,0,0,false,"fifo/eager"}, {1,0,0,true,"reverse/eager"}, {0,1,1,false,"fifo/late"}, {2,1,0,true,"preempt-always/late-send"}, {1,0,0,false,"reverse/eager/3-threads-per-rank",3}};
 
 static std::string judge(const Case &cs, const Out &o) {
     int k = cs.rp.k();
@@ -57,7 +59,7 @@ static std::string judge(const Case &cs, const Out &o) {
 }
 
 static std::string run_env(const Case &cs, const Env &e, const std::vector<int> *prefix = nullptr, bool explore_completion = false) {
-    vs::cfg().default_policy = e.policy; vs::cfg().max_threads = 1;
+    vs::cfg().default_policy = e.policy; vs::cfg().max_threads = e.threads;
     vs::cfg().prefix = prefix ? *prefix : std::vector<int>();
     mm::cfg().send_mode = e.send_mode; mm::cfg().recv_mode = e.recv_mode; mm::cfg().reduce_reverse = e.reverse; mm::cfg().explore_completion = explore_completion;
     Out o = fresh_out(cs);
